@@ -839,6 +839,14 @@ def rule_key_generation(ctx, cfg='prod-all'):
                             shape = True      # the same value written another way (`(p' << 1) + 1`)
                     if tt['k'] == 'switch':
                         for g2 in ga._flatten(classify_switch(eng, fd, x)):
+                            if g2.kind == 'call' and (g2.what or '').endswith('is_probably_prime') and g2.oargs and any(v_ == '0' for v_, _b in tt['targets']):
+                                # `matches!(c.is_probably_prime(reps), IsPrime::No)`: a switch on the verdict itself (`No` is variant 0 of rug's IsPrime)
+                                from flow import draw_sites
+                                ds = draw_sites(eng, fd, g2.oargs[0])
+                                if any(bj == bi for (_ln, _c, bj) in ds):
+                                    prim = True
+                                else:
+                                    tested_other = True
                             if 'PartialEq' in (g2.what or '') and g2.args and g2.args[0]['k'] in ('copy', 'move') and not g2.args[0]['pl'].get('p'):
                                 oc = origin_call(zf, g2.args[0]['pl']['l'])
                                 if oc is not None and (oc.get('callee') or '').endswith('is_probably_prime'):
@@ -859,6 +867,17 @@ def rule_key_generation(ctx, cfg='prod-all'):
                 for (ex_, es_), gs_ in loop_exit_gates(eng, ga, b, fd, h, bl):
                     here = None
                     for g2 in gs_:
+                        if g2.kind == 'call' and (g2.what or '').endswith('is_probably_prime') and g2.edge and g2.fn == b.path:
+                            tsw_ = b.blocks[g2.edge[0]]['term']
+                            zero_ = [bb_ for v_, bb_ in tsw_.get('targets', []) if v_ == '0']
+                            direct_ = False
+                            if tsw_['k'] == 'switch' and tsw_['discr'].get('k') in ('copy', 'move'):
+                                dd_ = fd.defs.get(tsw_['discr']['pl']['l'], [])
+                                direct_ = len(dd_) == 1 and dd_[0][0] == 'assign' and dd_[0][2]['rv'].get('k') == 'discr'
+                            if tsw_['k'] == 'switch' and zero_ and direct_:
+                                seen_cmp = True
+                                differs = g2.edge[1] != zero_[0]          # the side taken is not the one of variant 0 (`No`)
+                                here = differs if here is None else (here or differs)
                         if 'PartialEq' in (g2.what or '') and g2.oargs and g2.oargs[0]['k'] in ('copy', 'move') and not g2.oargs[0]['pl'].get('p') and g2.fn == b.path:
                             oc = origin_call(zf, g2.oargs[0]['pl']['l'])
                             if oc is not None and (oc.get('callee') or '').endswith('is_probably_prime'):
